@@ -25,6 +25,7 @@ ASSUMPTIONS = ['"documented meaning" of a parameter leaf = the domains listed in
                'exceptions raised for bad *parameter values* (unknown mode names etc.) are not part of the enforced '
                'refusal domain: the statement restricts the AmpycloudError-only clause to data and call-order problems']
 BUDGET = {'quick': 1800, 'thorough': 40000}
+CORPUS = 'pipeline'
 WEIGHTS = {'layered': 8, 'split_candidate': 4, 'double_split': 2, 'merge_chain': 3, 'bundle_stress': 4, 'degenerate': 3,
            'exact_counts': 1, 'ref_window': 2}
 REFUSALS = ['dup_row', 'type0_mix', 'vv_mix', 'missing_col', 'empty', 'not_df', 'order_groups', 'order_layers',
